@@ -277,6 +277,9 @@ def Scipy.shape : Scipy α → List Nat
 /-- dense value of a scipy array at an index -/
 def Scipy.get (s : Scipy α) (fill : α) (i : Idx) : α := COO.lookup (s.triples fill) fill i
 
+/-- what SCIPY means by an entry list (`toarray()`, arithmetic): entries with the same index add up -/
+def sumAt (es : List (Idx × Int)) (i : Idx) : Int := ((es.filter fun e => e.1 == i).map (·.2)).sum
+
 /-! ### `_determine_format` -/
 
 def countSparse (f : Format) : Nat := (f.levels.filter fun l => l.fmt != .dense).length
